@@ -205,10 +205,11 @@ func hookValidate(t *tms20.TileMatrixSet, ids []int) hookResult {
 // ---- perturbations ---------------------------------------------------------------------------------
 
 type pert struct {
-	coq   string
-	desc  string
-	apply func(t *tms20.TileMatrixSet)
-	kind  string // which condition it breaks ("" = none intended)
+	coq        string
+	desc       string
+	apply      func(t *tms20.TileMatrixSet)
+	kind       string // which condition it breaks ("" = none intended)
+	oracleOnly bool   // a value the model cannot hold (NaN, +Inf, -Inf: the model's numbers are exact decimals): no correspondence case
 }
 
 func cloneSet(t tms20.TileMatrixSet) tms20.TileMatrixSet {
@@ -238,38 +239,42 @@ func coqUint(u uint) string { return new(big.Int).SetUint64(uint64(u)).String() 
 
 func pMatrixWidth(id int, v uint) pert {
 	return pert{fmt.Sprintf("PMatrixWidth %s %s", hc.CoqZ(int64(id)), coqUint(v)), fmt.Sprintf("matrixWidth[%d] := %d", id, v),
-		func(t *tms20.TileMatrixSet) { modTM(t, id, func(m *tms20.TileMatrix) { m.MatrixWidth = v }) }, "matrix width"}
+		func(t *tms20.TileMatrixSet) { modTM(t, id, func(m *tms20.TileMatrix) { m.MatrixWidth = v }) }, "matrix width", false}
 }
 func pMatrixHeight(id int, v uint) pert {
 	return pert{fmt.Sprintf("PMatrixHeight %s %s", hc.CoqZ(int64(id)), coqUint(v)), fmt.Sprintf("matrixHeight[%d] := %d", id, v),
-		func(t *tms20.TileMatrixSet) { modTM(t, id, func(m *tms20.TileMatrix) { m.MatrixHeight = v }) }, "matrix height"}
+		func(t *tms20.TileMatrixSet) { modTM(t, id, func(m *tms20.TileMatrix) { m.MatrixHeight = v }) }, "matrix height", false}
 }
 func pTileWidth(id int, v uint) pert {
 	return pert{fmt.Sprintf("PTileWidth %s %s", hc.CoqZ(int64(id)), coqUint(v)), fmt.Sprintf("tileWidth[%d] := %d", id, v),
-		func(t *tms20.TileMatrixSet) { modTM(t, id, func(m *tms20.TileMatrix) { m.TileWidth = v }) }, "tile width"}
+		func(t *tms20.TileMatrixSet) { modTM(t, id, func(m *tms20.TileMatrix) { m.TileWidth = v }) }, "tile width", false}
 }
 func pTileHeight(id int, v uint) pert {
 	return pert{fmt.Sprintf("PTileHeight %s %s", hc.CoqZ(int64(id)), coqUint(v)), fmt.Sprintf("tileHeight[%d] := %d", id, v),
-		func(t *tms20.TileMatrixSet) { modTM(t, id, func(m *tms20.TileMatrix) { m.TileHeight = v }) }, "tile height"}
+		func(t *tms20.TileMatrixSet) { modTM(t, id, func(m *tms20.TileMatrix) { m.TileHeight = v }) }, "tile height", false}
 }
 func pOrigin(id int, x, y float64) pert {
 	return pert{fmt.Sprintf("POrigin %s %s %s", hc.CoqZ(int64(id)), decOfFloat(x), decOfFloat(y)), fmt.Sprintf("pointOfOrigin[%d] := [%v, %v]", id, x, y),
 		func(t *tms20.TileMatrixSet) {
 			modTM(t, id, func(m *tms20.TileMatrix) { p := tms20.TwoDPoint{x, y}; m.PointOfOrigin = &p })
-		}, "origin"}
+		}, "origin", false}
 }
 func pCorner(id int, code int) pert {
 	v := []tms20.CornerOfOrigin{"", tms20.TopLeft, tms20.BottomLeft}[code]
 	return pert{fmt.Sprintf("PCorner %s %d", hc.CoqZ(int64(id)), code), fmt.Sprintf("cornerOfOrigin[%d] := %q", id, v),
-		func(t *tms20.TileMatrixSet) { modTM(t, id, func(m *tms20.TileMatrix) { m.CornerOfOrigin = v }) }, "corner"}
+		func(t *tms20.TileMatrixSet) { modTM(t, id, func(m *tms20.TileMatrix) { m.CornerOfOrigin = v }) }, "corner", false}
 }
 func pCellSize(id int, v float64) pert {
-	return pert{fmt.Sprintf("PCellSize %s %s", hc.CoqZ(int64(id)), decOfFloat(v)), fmt.Sprintf("cellSize[%d] := %v", id, v),
-		func(t *tms20.TileMatrixSet) { modTM(t, id, func(m *tms20.TileMatrix) { m.CellSize = v }) }, "cell size"}
+	apply := func(t *tms20.TileMatrixSet) { modTM(t, id, func(m *tms20.TileMatrix) { m.CellSize = v }) }
+	if math.IsNaN(v) || math.IsInf(v, 0) {
+		// not a decimal: no Coq term, and no JSON document either
+		return pert{"", fmt.Sprintf("cellSize[%d] := %v", id, v), apply, "cell size", true}
+	}
+	return pert{fmt.Sprintf("PCellSize %s %s", hc.CoqZ(int64(id)), decOfFloat(v)), fmt.Sprintf("cellSize[%d] := %v", id, v), apply, "cell size", false}
 }
 func pDelete(id int) pert {
 	return pert{fmt.Sprintf("PDelete %s", hc.CoqZ(int64(id))), fmt.Sprintf("delete matrix %d", id),
-		func(t *tms20.TileMatrixSet) { delete(t.TileMatrices, id) }, "delete"}
+		func(t *tms20.TileMatrixSet) { delete(t.TileMatrices, id) }, "delete", false}
 }
 func pVmw(id int, n int) pert {
 	return pert{fmt.Sprintf("PVmw %s %d", hc.CoqZ(int64(id)), n), fmt.Sprintf("variableMatrixWidths[%d] := %d entries", id, n),
@@ -280,11 +285,11 @@ func pVmw(id int, n int) pert {
 					m.VariableMatrixWidths[i] = tms20.VariableMatrixWidth{Coalesce: 2}
 				}
 			})
-		}, "variable widths"}
+		}, "variable widths", false}
 }
 func pID(id int, s string) pert {
 	return pert{fmt.Sprintf("PId %s %s", hc.CoqZ(int64(id)), coqStr(s)), fmt.Sprintf("id[%d] := %q", id, s),
-		func(t *tms20.TileMatrixSet) { modTM(t, id, func(m *tms20.TileMatrix) { m.ID = s }) }, "id"}
+		func(t *tms20.TileMatrixSet) { modTM(t, id, func(m *tms20.TileMatrix) { m.ID = s }) }, "id", false}
 }
 
 // pShift renumbers every tile matrix: key k and id string k become k+d (d = 1 on a set that starts at 0: "all ids
@@ -298,7 +303,7 @@ func pShift(d int) pert {
 				n[k+d] = m
 			}
 			t.TileMatrices = n
-		}, ""}
+		}, "", false}
 }
 
 // ---- the independent oracle: the quadtree conditions recomputed with exact arithmetic ------------------
@@ -410,14 +415,15 @@ type c14Base struct {
 func runC14(c *hc.Ctx) error {
 	vs := newViolations(c)
 	var buf bufferedCases
-	c.Sum.Rule = "tile matrix sets = the built-in documents and synthetic exact quadtrees (tile width 1/256/512, both corners, first id 0 or 2); unperturbed (all id lists incl. the real binary for the built-in sets) and with every single-field perturbation (matrix width/height, tile width/height, origin by 1 ulp / 1e-9 / 1 unit, corner, cell size at ratios {1, 1.98, 1.99 -/+ 1ulp, 1.9900001, 2 -/+ 1e-9, 2.0099999, 2.01 -/+ 1 ulp, 2.02, 3} to BOTH neighbours, zero and negative, deletion, variable widths incl. the empty non-nil slice, id strings) at the first, second, a random and the last level (thorough: every level), plus random pairs of perturbations, plus the sets without tile matrix 0 that keep every other condition (tile matrix 0 deleted; every id renumbered +1, +3, back to 0; requested ids [1], deepest, [1..5]; thorough: also first, all, the first five); the unperturbed synthetic sets, the sets without tile matrix 0 and a hashed 1-in-24 (thorough 1-in-6) sample of all other evaluations are written to a file (tms20 MarshalJSON) and validated by the CLI's own validateTileMatrixSet (`texel verif-validate`, build tag verif); distinct = distinct (set, perturbations, ids); non-trivial = perturbed or accepted"
-	c.Sum.Oracle = "on the implementation (pointindex.IsQuadTree, DeviationStats, the texel binary; panics recovered): accepted => the quadtree conditions recomputed from the struct with exact rationals hold (ratio cases within 1e-12 of 1.99/2.01 make no claim); a perturbation breaking exactly one condition of an accepted set => rejected with an error; never a panic; for accepted unperturbed sets with a 1x1 root the pixel size reported by DeviationStats (int64 reso) equals cellSize(z)/16 within 1e-7 relative (built-in documents halve only to ~3e-8) resp. exactly to 1e-10 units (synthetic); the binary's verdict equals the library composite; the verdict of validateTileMatrixSet on a set given as a file (verif hook) equals the library composite on the value that file decodes to -- in particular a DeviationStats error (no tile matrix 0) is a rejection -- and is never a panic (values that cannot be encoded or whose document does not load are skipped and counted)"
+	c.Sum.Rule = "tile matrix sets = the built-in documents and synthetic exact quadtrees (tile width 1/256/512, both corners, first id 0 or 2); unperturbed (all id lists incl. the real binary for the built-in sets) and with every single-field perturbation (matrix width/height, tile width/height, origin by 1 ulp / 1e-9 / 1 unit, corner, cell size at ratios {1, 1.98, 1.99 -/+ 1ulp, 1.9900001, 2 -/+ 1e-9, 2.0099999, 2.01 -/+ 1 ulp, 2.02, 3} to BOTH neighbours, zero and negative, NaN and +Inf / -Inf, deletion, variable widths incl. the empty non-nil slice, id strings) at the first, second, a random and the last level (thorough: every level), plus random pairs of perturbations, plus the sets without tile matrix 0 that keep every other condition (tile matrix 0 deleted; every id renumbered +1, +3, back to 0; requested ids [1], deepest, [1..5]; thorough: also first, all, the first five); the unperturbed synthetic sets, the sets without tile matrix 0 and a hashed 1-in-24 (thorough 1-in-6) sample of all other evaluations are written to a file (tms20 MarshalJSON) and validated by the CLI's own validateTileMatrixSet (`texel verif-validate`, build tag verif); distinct = distinct (set, perturbations, ids); non-trivial = perturbed or accepted"
+	c.Sum.Oracle = "on the implementation (pointindex.IsQuadTree, DeviationStats, the texel binary; panics recovered): accepted => the quadtree conditions recomputed from the struct with exact rationals hold (ratio cases within 1e-12 of 1.99/2.01 make no claim); a perturbation breaking exactly one condition of an accepted set => rejected with an error; a NaN or infinite cell size at any level => rejected by IsQuadTree and by the composite (oracle only: such a value has no decimal in the model and no JSON document, so no correspondence case and no run of the hook); never a panic; for accepted unperturbed sets with a 1x1 root the pixel size reported by DeviationStats (int64 reso) equals cellSize(z)/16 within 1e-7 relative (built-in documents halve only to ~3e-8) resp. exactly to 1e-10 units (synthetic); the binary's verdict equals the library composite; the verdict of validateTileMatrixSet on a set given as a file (verif hook) equals the library composite on the value that file decodes to -- in particular a DeviationStats error (no tile matrix 0) is a rejection -- and is never a panic (values that cannot be encoded or whose document does not load are skipped and counted)"
 	c.Sum.Partial = "float clause: the ratio condition is the binary64 test the code performs; its meaning for the exact quotient of the two float64 cell sizes is proved with a slack of 2^-50 (C14_ratio_exact: within [1.99 - 2^-50, 2.01 + 2^-50]); validate_total carries the level bound d + log2(tile width) + 4 < 64 (every built-in set satisfies it; a 60-level set does not: C14_validate_total_level_bound_needed)"
 	c.Sum.TrustedBase = []string{
 		"float64 division and comparison in IsQuadTree modelled bit-exactly through f64 (round to nearest even of the exact quotient of the two binary64 values)",
 		"uint(math.Log2(float64(tileWidth))) modelled as floor(log2) (exact for tile widths below 2^47); uint(-Inf) = 2^63 and 1<<n = 0 for n >= 64 as compiled for amd64",
 		"main.validateTileMatrixSet is in package main: its call order is tied by the generated gen_validate_calls, by running the built binary on the built-in sets, and by running it on perturbed sets written to a file through the add-only hook /repo/verif_validate.go (build tag verif: load with tms20.LoadJSONTileMatrixSet, call validateTileMatrixSet, print the verdict); for the perturbed values that are not sampled for the hook the harness calls IsQuadTree, slices.Max, DeviationStats in that order itself",
 	}
+	c.Sum.Assumptions = []string{"numbers of the model are exact decimals (every finite binary64 value is one): a NaN or infinite cell size -- which no JSON document can carry, only a value built in Go -- is outside the model; those perturbations are checked by the oracle on the implementation only (rejected, no panic) and emit no correspondence case"}
 	if err := buildTexel(c); err != nil {
 		return err
 	}
@@ -510,6 +516,16 @@ func runC14(c *hc.Ctx) error {
 		}
 		if missing && vc != "reject" {
 			vs.add(hc.Violation{What: "an empty request / a request for a tile matrix that is not in the set is not rejected with an error (regression F12)", Input: in, Observed: vc + " " + vm, Expected: "an error"})
+		}
+		// the perturbed VALUE (a later perturbation may delete the matrix again): two or more matrices, one of them
+		// with a cell size that is not a finite number => no ratio to a neighbour lies within [1.99, 2.01]
+		if len(t.TileMatrices) >= 2 && (qc != "reject" || vc != "reject") {
+			for _, id := range sortedIDs(&t) {
+				if cs := t.TileMatrices[id].CellSize; math.IsNaN(cs) || math.IsInf(cs, 0) {
+					vs.add(hc.Violation{What: fmt.Sprintf("a tile matrix set with a NaN / infinite cell size is not rejected with an error (cell size of tile matrix %d is %v)", id, cs), Input: in, Observed: "IsQuadTree: " + qc + " " + qm + "; validate: " + vc + " " + vm, Expected: "rejected by IsQuadTree (the ratio to a neighbouring cell size is not within [1.99, 2.01])"})
+					break
+				}
+			}
 		}
 		spec := quadSpec(&t)
 		if qc == "accept" && !spec.ok && !spec.uncertain {
@@ -606,6 +622,13 @@ func runC14(c *hc.Ctx) error {
 		addCase := buf.add
 		if len(ps) == 0 {
 			addCase = buf.addFirst
+		}
+		for _, p := range ps {
+			if p.oracleOnly {
+				// NaN / infinite values are outside the model's exact decimals: oracle only
+				c.Count("oracle only, no correspondence case (NaN / infinite cell size)")
+				addCase = func(string, any) {}
+			}
 		}
 		addCase(fmt.Sprintf("MkCase %s %s %s %s %s", b.coq, hc.CoqList(pc), hc.CoqList(idl), cls[bq], cls[bv]),
 			map[string]any{"set": b.name, "perturbations": pd, "ids": ids, "IsQuadTree": qc + " " + qm, "validate": bv + " " + vm, "binary": useBinary, "verif-validate": viaHook})
@@ -716,6 +739,9 @@ func runC14(c *hc.Ctx) error {
 				}
 			}
 			ps = append(ps, pCellSize(id, 0), pCellSize(id, -m.CellSize), pCellSize(id, 1e300), pCellSize(id, 5e-324))
+			// not numbers / not finite (cannot come from a document, only from a value built in Go): every comparison
+			// with NaN is false, so a range test written as a negation accepts it
+			ps = append(ps, pCellSize(id, math.NaN()), pCellSize(id, math.Inf(1)), pCellSize(id, math.Inf(-1)))
 			ps = append(ps, pDelete(id), pVmw(id, 1), pVmw(id, 3), pVmw(id, 0))
 			for _, s := range []string{"", "x", "0" + m.ID, "+" + m.ID, "-" + m.ID, m.ID + " ", strconv.Itoa(id + 1), "1e1", m.ID + ".0", "99999999999999999999"} {
 				if s != m.ID {
@@ -797,7 +823,7 @@ func runC14(c *hc.Ctx) error {
 				case 3:
 					return pTileHeight(id, 512)
 				case 4:
-					return pCellSize(id, m.CellSize*[]float64{0.5, 2, 0.996, 1.004, 0.99, 1.01}[c.Rng.Intn(6)])
+					return pCellSize(id, m.CellSize*[]float64{0.5, 2, 0.996, 1.004, 0.99, 1.01, math.NaN(), math.Inf(1)}[c.Rng.Intn(8)])
 				case 5:
 					return pCorner(id, 2)
 				case 6:
